@@ -246,7 +246,8 @@ func (s *SpecValidator) validateDuplicatePropertyNames() *Result {
 		}
 
 		knownanc := map[string]struct{}{
-			"#/definitions/" + k: {},
+			// the form under which a $ref names this definition (escaped as a JSON pointer)
+			"#/definitions/" + jsonpointer.Escape(k): {},
 		}
 
 		ancs, rec := s.validateCircularAncestry(k, sch, knownanc)
